@@ -228,6 +228,10 @@ def h_weight_keywords(h):
         h.check(d.alpha == a0 and d.beta == b0, "nothing-fitted-before-rejection")
 
 
+BAD_GRID_STRUCT = ["limits_short", "limits_long", "limit_triple", "limit_single", "limit_scalar", "deltas_short", "deltas_long"]
+BAD_GRID_VALUE = ["deltas_negative", "deltas_zero", "deltas_one_negative", "deltas_nan", "limit_degenerate", "limit_nan"]
+
+
 def h_hdc_grid(h):
     C = shim.mod("contours")
     model = _model2(2)
@@ -238,6 +242,10 @@ def h_hdc_grid(h):
         "limit_triple": ([(0, 6, 7), (0, 12)], good_d), "limit_single": ([(0,), (0, 12)], good_d),
         "limit_scalar": ([6, (0, 12)], good_d), "deltas_short": (good_l, [1.0]),
         "deltas_long": (good_l, [1.0, 2.0, 3.0]),
+        # value-level malformations: any exception counts as a rejection, a computed contour does not
+        "deltas_negative": (good_l, -1.0), "deltas_zero": (good_l, 0), "deltas_one_negative": (good_l, [1.0, -2.0]),
+        "deltas_nan": (good_l, math.nan), "limit_degenerate": ([(0, 6), (5, 5)], good_d),
+        "limit_nan": ([(0, 6), (0, math.nan)], good_d),
     }
     if kind == "good":
         with warnings.catch_warnings():
@@ -252,7 +260,8 @@ def h_hdc_grid(h):
             warnings.simplefilter("ignore")
             C.HighestDensityContour(model, 0.2, limits=l, deltas=d)
 
-    h.raises(f, (ValueError,), "malformed-grid-rejected")
+    h.raises(f, (ValueError,) if kind in BAD_GRID_STRUCT else (ValueError, IndexError, ZeroDivisionError, TypeError),
+             "malformed-grid-rejected")
 
 
 def h_nonfinite(h):
@@ -349,8 +358,7 @@ def obligations(tier):
             yield ("method_strings", h_method_strings, {"family": fam, "method": m}, {})
     for w in VALID_WEIGHTS + INVALID_WEIGHTS:
         yield ("weight_keywords", h_weight_keywords, {"weights": w}, {})
-    for k in ("good", "limits_short", "limits_long", "limit_triple", "limit_single", "limit_scalar", "deltas_short",
-              "deltas_long"):
+    for k in ["good"] + BAD_GRID_STRUCT + BAD_GRID_VALUE:
         yield ("hdc_grid", h_hdc_grid, {"kind": k}, {})
     for fn in ("pdf", "cdf"):
         for bad in ("nan", "inf", "-inf"):
